@@ -6,6 +6,7 @@
 package main
 
 import (
+	"encoding/json"
 	"errors"
 	"fmt"
 	"math/big"
@@ -373,6 +374,9 @@ func leafKind(e error) string {
 		if errors.Is(e, clientip.ErrUnspecifiedIpAddress) {
 			return "ERemoteUnspecified"
 		}
+	case strings.HasPrefix(e.Error(), "chain resolver: no resolver configured"):
+		// clientip.ErrChain, matched by text so that the harness still builds against a tree that predates it
+		return "EChainEmpty"
 	case errors.Is(e, clientip.ErrSingleIPHeader):
 		return "ESingleNotFound"
 	case errors.Is(e, clientip.ErrLeftmostNonPrivate):
@@ -908,8 +912,27 @@ func main() {
 	out := args["out"]
 	tier := args["tier"]
 	shards := hx.Atoi(args["shards"], 8)
+	seed := hx.Seed()
+	if rp := args["replay"]; rp != "" {
+		// a replay file written by bin/check names the seed and tier of the run that failed;
+		// generation is deterministic, so regenerating with them re-creates the failing cases
+		var v struct {
+			Seed uint64 `json:"seed"`
+			Tier string `json:"tier"`
+		}
+		b, err := os.ReadFile(rp)
+		hx.Fatal(err)
+		hx.Fatal(json.Unmarshal(b, &v))
+		seed = v.Seed
+		if v.Tier != "" {
+			tier = v.Tier
+		}
+	}
+	if tier == "thorough" && shards < 64 {
+		shards = 64 // keep each coqc process under ~1 GB
+	}
 	// hx.NewRand(s) and hx.NewRand(s+1) produce the same stream shifted by one draw; mix the seed first
-	rnd := hx.NewRand(hx.NewRand(hx.Seed()).U64())
+	rnd := hx.NewRand(hx.NewRand(seed).U64())
 	repo := os.Getenv("VERIF_REPO")
 	if repo == "" {
 		repo = "/repo"
@@ -922,8 +945,7 @@ func main() {
 		Type:   "case",
 		Footer: "Definition mism := Eval vm_compute in mismatches cases.\nPrint mism.\n" +
 			"Definition viol := Eval vm_compute in spec_violations cases.\nPrint viol.\n" +
-			"Definition oof := Eval vm_compute in fuel_outs cases.\nPrint oof.\n" +
-			"Definition known_c18_empty_chain := Eval vm_compute in known_empty_chain_cases cases.\nPrint known_c18_empty_chain.\n",
+			"Definition oof := Eval vm_compute in fuel_outs cases.\nPrint oof.\n",
 	}
 	st := &hx.Stats{Rule: "resolver cases: header line lists (0-3 lines x 1-4 items) of X-Forwarded-For, Forwarded and a single-IP header built from valid/invalid/private/public IPv4/IPv6 texts " +
 		"(incl. the edges of every entry of the four default tables), ports, brackets, zones, quotes, Forwarded parameters, Unicode/ASCII spaces, byte mutations " +
@@ -1036,7 +1058,10 @@ func main() {
 		{reqDesc{xff: []string{"192.18.0.1, 1.1.1.1"}}, &rdesc{kind: "leftmost", n: 2}},
 		{reqDesc{fwd: []string{"For=\"[2001:db8:cafe::17%zone]:4711\"", "for=192.0.2.60;proto=http; by=203.0.113.43"}}, &rdesc{kind: "count", fwd: true, n: 2}},
 		{reqDesc{xff: []string{"4.4.4.4, 10.0.0.1"}, single: []string{"3.3.3.3", "5.5.5.5"}, remote: "192.0.2.1:8080"}, &rdesc{kind: "chain", subs: []*rdesc{{kind: "single"}, {kind: "remote"}}}},
+		// witnesses of the fixed defect c18_empty_chain (a2abf08): must now satisfy the specification
 		{reqDesc{remote: "1.2.3.4:1"}, &rdesc{kind: "chain"}},
+		{reqDesc{remote: "1.2.3.4:1"}, &rdesc{kind: "chain", subs: []*rdesc{{kind: "chain"}, {kind: "remote"}}}},
+		{reqDesc{xff: []string{"8.8.8.8"}, remote: "@"}, &rdesc{kind: "chain", subs: []*rdesc{{kind: "remote"}, {kind: "chain"}}}},
 	}
 	for _, f := range fixed {
 		h := max(f.d.reads(), 0)
@@ -1085,7 +1110,7 @@ func main() {
 
 	nbase, natk, sysPct := 1500, 2, 6
 	if tier == "thorough" {
-		nbase, natk, sysPct = 14000, 3, 5
+		nbase, natk, sysPct = 10000, 3, 5
 	}
 	for i := 0; i < nbase; i++ {
 		rq := g.request()
@@ -1112,7 +1137,7 @@ func main() {
 	atoms := hx.SortedKeys(g.atoms)
 	maxParse := 5000
 	if tier == "thorough" {
-		maxParse = 60000
+		maxParse = 40000
 	}
 	for len(atoms) > maxParse { // drop random ones, deterministically
 		i := rnd.Intn(len(atoms))
